@@ -8,7 +8,7 @@ open NucleoVerif
 def parseDotArr (s : String) : Array Nat := if s = "-" then #[] else ((s.splitOn ".").filterMap (·.toNat?)).toArray
 
 /-- counting sort signature of a multiset of naturals (for the permutation clause) -/
-def sortedCopy (a : Array Nat) : Array Nat := a.qsort (· < ·)
+def sortedCopy (a : Array Nat) : List Nat := a.toList.mergeSort (fun x y => decide (x ≤ y))
 
 def qLine (ws : List String) : String := Id.run do
   let get := fun k => (field ws k).getD ""
